@@ -936,9 +936,13 @@ func (c *c08Run) observe() {
 		} else {
 			c.h.Obs("st %d %d %d %d %d %d %d", k, v[0][0], v[0][1], v[1][0], v[1][1], v[2][0], v[2][1])
 		}
-		suffix := ""
-		if ns.metric != nil && !ns.metric.hasUpd {
-			suffix = ":report-without-update-time"
+		// a report without Status.UpdateTime: every failing cache oracle is one finding class
+		noUpd := ns.metric != nil && !ns.metric.hasUpd
+		fp := func(base string) string {
+			if noUpd {
+				return "C08:cache-drift:report-without-update-time"
+			}
+			return base
 		}
 		if ok != (ns.metric != nil) {
 			c.h.Fail("C08:metric-presence", "node %d: cache has metric=%v, events say %v", k, ok, ns.metric != nil)
@@ -953,23 +957,23 @@ func (c *c08Run) observe() {
 		// (a) from-scratch formulas
 		ep, en, ef := ns.expect(c.cfg)
 		if c08Vec2(v[0]) != ep {
-			c.h.Fail("C08:estimate-formula:prod"+suffix, "node %d prod estimate %v, from scratch %v", k, v[0], ep)
+			c.h.Fail(fp("C08:estimate-formula:prod"), "node %d prod estimate %v, from scratch %v", k, v[0], ep)
 		}
 		if ns.metric.hasInfo && c08Vec2(v[1]) != en {
-			c.h.Fail("C08:estimate-formula:node"+suffix, "node %d estimate %v, from scratch %v", k, v[1], en)
+			c.h.Fail(fp("C08:estimate-formula:node"), "node %d estimate %v, from scratch %v", k, v[1], en)
 		}
 		if c08Vec2(v[2]) != ef {
-			c.h.Fail("C08:estimate-formula:full"+suffix, "node %d sum of estimates %v, from scratch %v", k, v[2], ef)
+			c.h.Fail(fp("C08:estimate-formula:full"), "node %d sum of estimates %v, from scratch %v", k, v[2], ef)
 		}
 		// (b) fresh cache
 		fv, fok := c.views(c.fresh(k), k)
 		if !fok {
-			c.h.Fail("C08:cache-drift"+suffix, "node %d: fresh cache has no metric", k)
+			c.h.Fail(fp("C08:cache-drift"), "node %d: fresh cache has no metric", k)
 			continue
 		}
 		for i := range v {
 			if c08Vec2(v[i]) != c08Vec2(fv[i]) {
-				c.h.Fail("C08:cache-drift"+suffix, "node %d view %d: cache %v, fresh cache %v", k, i, v[i], fv[i])
+				c.h.Fail(fp("C08:cache-drift"), "node %d view %d: cache %v, fresh cache %v", k, i, v[i], fv[i])
 				break
 			}
 		}
